@@ -155,8 +155,8 @@ Proof. vm_compute. reflexivity. Qed.
 From V Require Import C10.Css C10.CssProofs.
 Definition ex_css : cgraph := map mk_cfile
   [(false, [], -1); (false, [6; 7], -1); (false, [6], -1); (false, [], -1); (true, [5], -1); (true, [], -1); (false, [], 4); (false, [], 5)].
-Example ex_css_chunks : (wf_cgraphb ex_css, css_chunks ex_css [1; 2]%nat)
-  = (true, [(0, 1, [4; 5]); (1, 2, [5; 4])]%nat).
+Example ex_css_chunks : (wf_cgraphb ex_css, no_zero_targetb ex_css, css_chunks ex_css [1; 2]%nat)
+  = (true, true, [(0, 1, [4; 5]); (1, 2, [5; 4])]%nat).
 Proof. vm_compute. reflexivity. Qed.
 Example ex_css_path : spath ex_css [0%nat] 4%nat 5%nat /\ jreach ex_css 2 6 /\ cf_stub (getc ex_css 6) = Some 4%nat.
 Proof.
